@@ -213,7 +213,7 @@ def gen_qual(rng, decls, name, value='?'):
         q['ts'] = rng.choice([True, False])
     if rng.random() < 0.04 + 0.08 * getattr(rng, 'nz', 1.0):
         q['ov'] = rng.choice([True, False])
-    if rng.random() < 0.03:
+    if rng.random() < 0.06:
         q['p'] = rng.choice([True, False])                    # junk to be overwritten
     return q
 
@@ -251,6 +251,22 @@ def gen_params(rng, decls):
                 p['q'] += gen_free_quals(rng, decls)[:1]
             ps.append(p)
     return ps
+
+
+def client_junk(rng, env, name, elems, clone_of=None):
+    """what a client may leave on the elements it submits: class_origin (right, wrong, stale from a
+    GetClass of another class) and propagated (True/False) - the server must overwrite both"""
+    others = [e['name'] for e in env.classes.values()]
+    for e in elems:
+        if clone_of is not None:
+            # clone: GetClass(other, LocalOnly=True, IncludeClassOrigin=True), renamed, re-submitted
+            e['org'] = clone_of
+            e['p'] = False
+        elif rng.random() < 0.22:
+            e['org'] = rng.choice([name, rc(rng, name), 'Junk'] + others + others)
+            e['p'] = rng.choice([True, False, None])
+        elif rng.random() < 0.06:
+            e['p'] = rng.choice([True, False])
 
 
 class Env:
@@ -313,8 +329,6 @@ def gen_class(rng, decls, env, name, parent, assoc=False):
                     if rng.random() < 0.7:
                         q.pop('ts', None); q.pop('ov', None)
                     p['q'].append(q)
-            if rng.random() < 0.05:
-                p['p'] = rng.choice([True, False]); p['org'] = 'Junk'
             own_p[ln] = p
     # new properties
     for n in PROP_NAMES:
@@ -364,6 +378,9 @@ def gen_class(rng, decls, env, name, parent, assoc=False):
                                 'ps': gen_params(rng, decls)}
     props = list(own_p.values())
     meths = list(own_m.values())
+    others = [e['name'] for e in env.classes.values() if e['name'].lower() != name.lower()]
+    clone_of = rc(rng, rng.choice(others)) if others and rng.random() < 0.10 else None
+    client_junk(rng, env, name, props + meths, clone_of)
     rng.shuffle(props)
     rng.shuffle(meths)
     c['props'], c['meths'] = props, meths
@@ -874,6 +891,13 @@ def oracle(run, decls, ops, outs, final_names, final_insts, toklist, case):
     for op, out in zip(ops, outs):
         o = op['op']
         ok = 'ok' in out
+        if o in ('create', 'add', 'modify') and ok:
+            for e in op['c']['props'] + op['c']['meths']:
+                if e.get('org'):
+                    run.count('client-set:class_origin ' + ('own-name' if e['org'].lower() == op['c']['n'].lower()
+                                                             else 'other'))
+                if e.get('p') is not None:
+                    run.count('client-set:propagated=%s' % e['p'])
         if o in ('create', 'add') and ok:
             ln = op['c']['n'].lower()
             if ln in sh.cls:
@@ -1142,7 +1166,7 @@ def run(run):
     run.rule = ('seeded random histories on one namespace: 14 qualifier declarations (flavors of 6 of them drawn from '
                 '{True,False,None}^2), 2..9 (thorough ..12) classes in forests of depth<=5 / fan-out<=4 created by CreateClass or '
                 'add_cimobjects in accepted and non-accepted orders, overriding / new / renamed-override properties and methods, '
-                'qualifiers repeated with same/different values, names in inconsistent lexical case, ModifyClass, DeleteClass, '
+                'qualifiers repeated with same/different values, client-set class_origin (own/other existing class/junk, whole-class clones) and propagated on submitted elements, names in inconsistent lexical case, ModifyClass, DeleteClass, '
                 'instances, interleaved GetClass (all flag combinations, property lists), EnumerateClassNames/Classes, '
                 '_get_superclass_names, EnumerateInstanceNames/Instances; near-miss stream: missing/foreign Override, type '
                 'changes, undeclared/ill-typed/ill-scoped qualifiers, unknown superclass, duplicates, references outside '
